@@ -17,6 +17,14 @@ use std::io::{BufRead, Write};
 use std::panic::{catch_unwind, AssertUnwindSafe};
 use value::V;
 
+pub static STRESS: std::sync::atomic::AtomicBool = std::sync::atomic::AtomicBool::new(false);
+
+/// True when input lines for the `stress` tier are being generated.
+#[allow(dead_code)]
+pub fn stress() -> bool {
+    STRESS.load(std::sync::atomic::Ordering::Relaxed)
+}
+
 fn eval_line(line: &str) -> String {
     let Some(vs) = value::parse_line(line) else {
         return format!("{line} => badline");
@@ -46,7 +54,11 @@ fn main() {
         Some("gen") => {
             let prop = argv.get(2).expect("property id");
             let seed: u64 = argv.get(3).and_then(|s| s.parse().ok()).unwrap_or(1);
-            let thorough = argv.get(4).map(String::as_str) == Some("thorough");
+            let tier = argv.get(4).map(String::as_str).unwrap_or("quick");
+            // `stress` = thorough + the out-of-distribution stream (large orders, extreme ids and weights,
+            // repeated calls): used by the orchestrator when a tie is broken and a failing input is searched
+            let thorough = tier == "thorough" || tier == "stress";
+            STRESS.store(tier == "stress", std::sync::atomic::Ordering::Relaxed);
             let mut rng = rng::Rng::new(seed);
             let stdout = std::io::stdout();
             let mut out = std::io::BufWriter::new(stdout.lock());
